@@ -57,7 +57,7 @@ Definition nr_cpukinds (st : state) : nat := length (kinds st).
 Definition nr_allocated (st : state) : nat := (length (kinds st) + length (tail st))%nat.
 
 Inductive fatal := F_OOB | F_STALE | F_UB.
-Inductive retcode := RC_OK | RC_EINVAL.
+Inductive retcode := RC_OK | RC_EINVAL | RC_EPERM.
 Inductive outcome := Fine (st : state) (rc : retcode) | Fatal (f : fatal).
 Inductive ireg := IOk (st : state) | IEinval | IFatal (f : fatal).
 
@@ -400,3 +400,15 @@ Fixpoint run (st : state) (h : list (option str * op)) : outcome :=
     | Fatal f => Fatal f
     end
   end.
+
+(* ---------- topologies adopted from shared memory ---------- *)
+(* hwloc_shmem_topology_write duplicates the topology into the mapping
+   (hwloc_internal_cpukinds_dup); the adopted copy is read-only:
+   hwloc_cpukinds_register, hwloc_topology_restrict and hwloc_topology_refresh
+   return EPERM without touching anything; dup and XML export+reload give a
+   normal topology again. *)
+Definition adopt_state (st : state) : state := dup_state st.
+Definition mutating (o : op) : bool :=
+  match o with OpRegister _ _ _ _ | OpRestrict _ | OpRank => true | OpDup | OpXml => false end.
+Definition guarded_step (adopted : bool) (env : option str) (st : state) (o : op) : outcome * bool :=
+  if adopted && mutating o then (Fine st RC_EPERM, true) else (step env st o, false).
